@@ -508,7 +508,7 @@ pub fn gen_stream(rng: &mut Rng, cfg: ProdCfg) -> Stream {
                 let float = g.rng.chance(1, 3);
                 let width = if g.rng.chance(1, 14) {
                     // a width the literal rule does not support (a later literal of it is an error the parser must report)
-                    *g.rng.pick(&[7u32, 24, 48, 128, 1, 0])
+                    if g.rng.chance(1, 3) { near_miss_width(&mut g.rng) } else { *g.rng.pick(&[7u32, 24, 48, 128, 1, 0]) }
                 } else if float {
                     *g.rng.pick(&[16u32, 32, 32, 64])
                 } else {
@@ -1139,6 +1139,17 @@ pub fn plant_spec_constant_op(rng: &mut Rng, stream: &mut Stream) {
             ops,
         },
     );
+}
+
+/// A width no literal rule supports that aliases a supported one when the stored width is truncated, masked or
+/// byte-shifted: 8 / 16 / 32 / 64 with one of the bits 7, 8, 15, 16, 24, 30, 31 set, or shifted left by 8 / 16 / 24.
+pub fn near_miss_width(rng: &mut Rng) -> u32 {
+    let base = *rng.pick(&[8u32, 16, 32, 64]);
+    if rng.chance(1, 4) {
+        base << *rng.pick(&[8u32, 16, 24])
+    } else {
+        base | (1u32 << *rng.pick(&[7u32, 8, 15, 16, 24, 30, 31]))
+    }
 }
 
 /// Hot spot for code that re-derives literal widths AFTER parsing (the module disassembler tracks all
